@@ -33,7 +33,7 @@ FAMILIES = {
     "yearend": dict(rbook=0.3, starts=[1766361600, 1797811200, 1734912000], vac=0.3, straddle=0.7, gleave=0.4, rleave=0.4, efforts=[480, 960, 1920, 2400, 3000, 3600, 4800],
                     dur=[("w", 4), ("w", 5)], ntasks=(1, 4), nres=(1, 2), dep=0.4, rdaily=0.2, rweekly=0.2),
     # task trees in which several containers complete in the same pass (containers of dated milestones)
-    "mstrees": dict(milestone=0.6, pin=0.7, nest=0.9, depth=3, ntasks=(4, 10), dep=0.2, contdep=0.1, dupid=0.2),
+    "mstrees": dict(window=0.4, milestone=0.6, pin=0.7, nest=0.9, depth=3, ntasks=(4, 10), dep=0.2, contdep=0.1, dupid=0.2),
     # equal local ids in different containers, many 'precedes': edges between like-named tasks
     "dupprec": dict(dupid=0.95, nest=0.85, depth=2, precedes=0.6, dep=0.8, rel=0.5, ntasks=(4, 9), gap=[0, 0, 60, 120], contdep=0.1),
     # the dialect of Model/SubSlot.v: one resource per task, no limits; efforts, efficiencies and gaps arbitrary
@@ -72,8 +72,7 @@ FAMILIES = {
     "priotrees": dict(nest=0.9, depth=4, ntasks=(4, 9), nres=(1, 2), prio=0.0, contprio=0.8, dep=0.15, efforts=[60, 120, 240, 480], rleave=0.0, vac=0.0, gleave=0.0),
     # several alternatives per allocation on resources of differing availability
     "alts": dict(nres=(3, 4), alt=0.85, alt2=True, rleave=0.5, rbook=0.4, ntasks=(2, 6), prio=0.7, dep=0.2, efforts=[240, 480, 960, 120], vac=0.0, gleave=0.0),
-    # working hours declared on a resource group and inherited by its members (only for checks that compare spellings:
-    # projects.working() looks at the leaf resource's own calendar)
+    # working hours declared on a resource group and inherited by its members
     "grouphours": dict(group=1.0, ghours=1.0, nres=(2, 3), hours=0.25, shift=0.1, ntasks=(2, 5), efforts=[120, 480, 960], dep=0.3, xmid=0.2,
                        rleave=0.1, vac=0.1, gleave=0.0),
     # dated containers above leaves without dates of their own (scenario-specific starts on the leaves: C16)
@@ -86,6 +85,10 @@ FAMILIES = {
     # backward projects with dependencies ON containers that contain containers (the successor binds every leaf below)
     "alapnest": dict(alap=1.0, nest=0.9, depth=3, contdep=0.9, dep=0.6, gap=[0, 0, 60, 480, 1440], onstart=0.0, precedes=0.2, pin=0.0, milestone=0.05,
                      efforts=[60, 120, 240, 480], ntasks=(4, 9), nres=(1, 3), rleave=0.0, vac=0.0, gleave=0.0),
+    # chains in which edges also carry a maximum gap (maxgapduration) - a best-effort delay of the predecessor; the lower
+    # bounds of C04 hold whatever it does
+    "maxgapdeps": dict(maxgap=0.5, dep=0.85, nest=0.4, contdep=0.3, nres=(2, 3), ntasks=(3, 7), gap=[0, 0, 60, 120], onstart=0.1, rbook=0.4, rleave=0.2,
+                       efforts=[120, 240, 480, 960], prio=0.5),
     "taskalap": dict(taskalap=0.5, dep=0.4, onstart=0.0, pin=0.0, efforts=[60, 120, 240, 90], ntasks=(1, 5), milestone=0.0),
     "trees": dict(group=0.5, galloc=0.2, dupid=0.3, contstart=0.3, nest=0.8, depth=4, ntasks=(3, 10), dep=0.3, milestone=0.15, pin=0.15, contdep=0.3, unsched=0.3),
     # nested containers with windows of their own and leaves that cannot be scheduled
@@ -357,6 +360,8 @@ def gen(rng, cfg):
             d["onstart"] = True
         elif rng.random() < 0.1:
             d["onend"] = True            # the default kind, written out
+        if cfg.get("maxgap") and rng.random() < cfg["maxgap"]:
+            d["maxgap"] = rng.choice([60, 120, 480, 1440])     # a maximum gap to the predecessor as well
         return d
     for p, n in leaves_t + conts:
         if rng.random() < (cfg["dep"] if "kids" not in n else cfg["contdep"]):
@@ -387,6 +392,12 @@ def gen(rng, cfg):
     for p, c in conts:
         if rng.random() < cfg["contstart"] and not ap.get("alap"):
             c["start"] = day0 + rng.randint(0, 5) * 86400
+    for p, n in leaves_t:
+        # a leaf given by its dates alone: start and end, no effort (placed by the pre-pass like a dated milestone)
+        if "milestone" in n and rng.random() < cfg.get("window", 0.0) and not ap.get("alap"):
+            del n["milestone"]
+            n["start"] = day0 + rng.randint(0, max(1, hor // 2)) * 86400 + rng.choice([0, 9, 14]) * 3600
+            n["end"] = n["start"] + rng.randint(1, 6) * 86400
     for p, c in conts:
         # a container with a window of its own (start and end written on it)
         if rng.random() < cfg.get("contwindow", 0.0) and not ap.get("alap"):
